@@ -120,7 +120,7 @@ public:
 
   static void exp(TRefIn a_in, GRefOut g_out)
   {
-    using std::cos, std::sin;
+    using std::sin;
 
     const Scalar th  = a_in.z();
     const Scalar th2 = th * th;
@@ -136,7 +136,8 @@ public:
       } else {
         return {
           sin(th) / th,
-          (cos(th) - Scalar(1)) / th,
+          // (cos(th) - 1) / th without cancellation
+          -Scalar(2) * sin(th / Scalar(2)) * sin(th / Scalar(2)) / th,
         };
       }
     }();
